@@ -1413,6 +1413,50 @@ var rStackEmpty = &Rule{
 			return
 		}
 		n := 0
+		// decide(fn, site, lines): the lines value handed over at `site` (in fn) comes from splitting a text that was
+		// tested non-empty on the way to the site; a parameter of an unexported function is followed to its callers
+		var decide func(fn *ssa.Function, site *ssa.Call, lines ssa.Value, depth int) (bool, string)
+		decide = func(fn *ssa.Function, site *ssa.Call, lines ssa.Value, depth int) (bool, string) {
+			if prm, isParam := lines.(*ssa.Parameter); isParam && depth < 3 && !sx.Exported(fn) {
+				pi := paramIndex(fn, prm)
+				sites := 0
+				for _, caller := range p.HandFuncs() {
+					var bad string
+					sx.EachInstr(caller, func(in ssa.Instruction) {
+						cs, ok := in.(*ssa.Call)
+						if !ok || sx.Callee(cs) != fn || pi >= len(cs.Call.Args) {
+							return
+						}
+						sites++
+						if ok2, why := decide(caller, cs, cs.Call.Args[pi], depth+1); !ok2 {
+							bad = why
+						}
+					})
+					if bad != "" {
+						return false, bad
+					}
+				}
+				if sites == 0 {
+					return false, "undecided: no caller found"
+				}
+				return true, ""
+			}
+			var text ssa.Value
+			if sp, ok := lines.(*ssa.Call); ok {
+				if f := sx.Callee(sp); f != nil && strings.HasPrefix(f.Name(), "Split") && len(sp.Call.Args) >= 1 {
+					text = sp.Call.Args[0]
+				}
+			}
+			if text == nil {
+				return false, "undecided: the lines argument is not the direct result of strings.Split*"
+			}
+			for _, l := range dominatingLits(site.Block()) {
+				if nonEmptyTestOf(l, text) {
+					return true, ""
+				}
+			}
+			return false, "the text is split and parsed without having been tested non-empty: the empty printed stack of a layer that captured no frames yields one all-empty frame / the location \".:0\" after a hop, while the sender reports no stack"
+		}
 		for _, fn := range p.HandFuncs() {
 			sx.EachInstr(fn, func(in ssa.Instruction) {
 				call, ok := in.(*ssa.Call)
@@ -1420,26 +1464,13 @@ var rStackEmpty = &Rule{
 					return
 				}
 				n++
-				// the string that was split into the lines argument
-				var text ssa.Value
-				if sp, ok := call.Call.Args[0].(*ssa.Call); ok {
-					if f := sx.Callee(sp); f != nil && strings.HasPrefix(f.Name(), "Split") && len(sp.Call.Args) >= 1 {
-						text = sp.Call.Args[0]
-					}
-				}
 				construct := load.FnName(fn) + ": parse of a printed stack"
-				if text == nil {
-					c.Undecided(construct, call.Pos(), "the lines argument is not the direct result of strings.Split*")
+				ok, why := decide(fn, call, call.Call.Args[0], 0)
+				if !ok && strings.HasPrefix(why, "undecided: ") {
+					c.Undecided(construct, call.Pos(), strings.TrimPrefix(why, "undecided: "))
 					return
 				}
-				ok = false
-				for _, l := range dominatingLits(call.Block()) {
-					if nonEmptyTestOf(l, text) {
-						ok = true
-					}
-				}
-				c.Check(ok, construct, call.Pos(), "only for a non-empty text",
-					"the text is split and parsed without having been tested non-empty: the empty printed stack of a layer that captured no frames yields one all-empty frame / the location \".:0\" after a hop, while the sender reports no stack")
+				c.Check(ok, construct, call.Pos(), "only for a non-empty text", why)
 			})
 		}
 		c.Min("callers of parsePrintedStackEntry", n, 2)
@@ -2269,7 +2300,16 @@ var rWriteFaithful = &Rule{
 		// piece of its input is a separator standing for a pending newline, and a separator is never empty, in
 		// either mode (the lengths are those of the package-level separator and of the literals it is swapped for)
 		nSep := 0
-		sx.EachInstr(w, func(in ssa.Instruction) {
+		// (the replay may sit in an unexported method of the state that Write calls: a parameter stands for its argument)
+		wreg := regionOf(w)
+		minLenParamResolver = func(prm *ssa.Parameter) ssa.Value {
+			if r := wreg.resolve(prm); r != ssa.Value(prm) {
+				return r
+			}
+			return nil
+		}
+		defer func() { minLenParamResolver = nil }()
+		wreg.each(func(in ssa.Instruction) {
 			call, ok := in.(*ssa.Call)
 			if !ok {
 				return
@@ -2279,7 +2319,7 @@ var rWriteFaithful = &Rule{
 				return
 			}
 			arg := call.Call.Args[1]
-			if dependsOnValue(arg, b, map[ssa.Value]bool{}, 0) {
+			if dependsOnValue(arg, b, map[ssa.Value]bool{}, 0) || dependsOnValue(wreg.resolve(arg), b, map[ssa.Value]bool{}, 0) {
 				return // a piece of the input
 			}
 			nSep++
@@ -2293,11 +2333,20 @@ var rWriteFaithful = &Rule{
 
 // minLenOf: a lower bound of len(v) for byte-slice / string values built from constants, package-level
 // byte slices initialised from constants, their merges and their re-slicings.
+// minLenParamResolver, when set, maps a helper's parameter to the argument it stands for.
+var minLenParamResolver func(*ssa.Parameter) ssa.Value
+
 func minLenOf(p *load.Program, v ssa.Value, d int) (int64, bool) {
 	if d > 8 {
 		return 0, false
 	}
 	switch x := v.(type) {
+	case *ssa.Parameter:
+		if minLenParamResolver != nil {
+			if r := minLenParamResolver(x); r != nil {
+				return minLenOf(p, r, d+1)
+			}
+		}
 	case *ssa.Const:
 		if s, ok := sx.ConstString(x); ok {
 			return int64(len(s)), true
